@@ -44,7 +44,7 @@ TRUSTED = ["harness/c06.py: file writer (checked by the judge against Spec.write
            "against Spec/Layout.v: length and counters), lossless run-length form of byte strings (enc)",
            "harness/layout_common.py: copybook printer, tree wire form"]
 
-PATH_CAP = 22
+PATH_CAP = 14
 
 # ------------------------------------------------------------------ byte strings on the wire (same form as C05)
 
@@ -217,9 +217,9 @@ def row_paths(tree, env, all_paths, rng):
 def inputs(ctx):
     rng = ctx.rng
     q = ctx.tier == "quick"
-    for i in range(150 if q else 1500):
+    for i in range(120 if q else 1500):
         yield "flat", dict(kind="flat", seed=rng.randrange(1 << 30), recfm=i % 3, lrecl=rng.choice([1, 80, 32768, 100000]))
-    for i in range(150 if q else 1500):
+    for i in range(120 if q else 1500):
         yield "nested", dict(kind="nested", seed=rng.randrange(1 << 30), recfm=i % 3, lrecl=rng.choice([1, 80, 32768]))
     targets = [16384, 16384, 20000, 32698, 32698, 24000]
     for i in range(12 if q else 72):
@@ -230,14 +230,20 @@ def inputs(ctx):
                                  lrecl=None if i % 3 != 2 else 0)
 
 
+def pick_nrec(rng):
+    """2-30 records, mostly short files (case lines stay small for the vm_compute cross-check)"""
+    r = rng.random()
+    return rng.randint(2, 5) if r < 0.6 else rng.randint(6, 12) if r < 0.9 else rng.randint(13, 30)
+
+
 def build_case(c):
     rng = random.Random(c["seed"])
     if c["kind"] == "flat":
         tree = gen_flat(rng)
-        nrec = rng.randint(2, 30)
+        nrec = pick_nrec(rng)
     elif c["kind"] == "nested":
         tree = gen_nested(rng)
-        nrec = rng.randint(2, 30)
+        nrec = pick_nrec(rng)
     else:
         tree = gen_boundary(rng, c["target"])
         nrec = rng.randint(3, 6)
